@@ -47,7 +47,9 @@ impl RRTPlanner {
 
         let collision_free = |joint_angles: &[f64]| -> bool {
             let joints = &<Joints>::try_from(joint_angles).expect("Cannot convert vector to array");
-            !kinematics.collides(joints)
+            // Interpolated tree nodes must also stay within the joint limits
+            kinematics.constraints().as_ref().map_or(true, |c| c.compliant(joints))
+                && !kinematics.collides(joints)
         };
 
         // Constraint compliant random joint configuration generator.
